@@ -7,7 +7,7 @@ import IastModel.Lemmas.ErArms
 namespace IastModel
 open Node
 
-theorem KL_of_forall {lo hi : Nat} : ∀ (ks : List Node), (∀ k ∈ ks, VC lo hi k k) → KL lo hi ks ks := by
+theorem KL_of_forall {lo hi : Nat} : ∀ (ks : List Node), (∀ k ∈ ks, EVC lo hi k k) → KL lo hi ks ks := by
   intro ks
   induction ks with
   | nil => intro _; simp [KL, Forall2]
@@ -49,7 +49,7 @@ theorem arrowOut_keep (ps : List Node) (at' : String) (sp : Span) (Xb : Node)
 
 /-- a source arrow function (block body or expression body, before the visitor touches it) -/
 theorem arrow_src_VC (ps : List Node) (b : Node) (at' : String) (sp : Span) (hs : srcOk (.arrow ps b at' sp) = true)
-    (lo hi : Nat) (hps : KL lo hi ps ps) (hb : VC lo hi b b) : VC lo hi (.arrow ps b at' sp) (.arrow ps b at' sp) := by
+    (lo hi : Nat) (hps : KL lo hi ps ps) (hb : EVC lo hi b b) : EVC lo hi (.arrow ps b at' sp) (.arrow ps b at' sp) := by
   have hsb : srcOk b = true := srcOk_kids hs b (by simp [kids])
   have h0 : looksInjectedBody b = false := by
     have := srcOk_self hs; simpa [srcNode] using this
@@ -58,7 +58,7 @@ theorem arrow_src_VC (ps : List Node) (b : Node) (at' : String) (sp : Span) (hs 
   obtain ⟨ps'', b'', rfl, hps'', hb''⟩ := hbr.arrow_inv
   obtain ⟨Xs, Δ1, e1, s1, w1⟩ := eraseL_KL hps ps'' hps'' σ
   -- the erased body, and why it is not taken for an injected one
-  have hbody : ∃ Xb Δ2, erase (Δ1 ++ σ) b'' = (Xb, Δ2 ++ (Δ1 ++ σ)) ∧ Sim Xb b ∧ Win lo hi Δ2 ∧ looksInjectedBody Xb = false := by
+  have hbody : ∃ Xb Δ2, erase (Δ1 ++ σ) b'' = (Xb, Δ2 ++ (Δ1 ++ σ)) ∧ ESim Xb b ∧ Win lo hi Δ2 ∧ looksInjectedBody Xb = false := by
     by_cases hblk : isBlockNode b = true
     · obtain ⟨ss, bsp, rfl⟩ : ∃ ss bsp, b = Node.block ss bsp := by
         cases b <;> simp_all [isBlockNode]
@@ -114,12 +114,12 @@ theorem arrow_src_VC (ps : List Node) (b : Node) (at' : String) (sp : Span) (hs 
   · exact ⟨by simp only [strip, Forall2_Sim_strip s1, s2.1], Or.inl rfl, by simp [noSp, unSpread]⟩
 
 /-- **a well-formed source tree, with or without good replacements of its nested blocks, erases to itself** -/
-theorem VC.src (lo hi : Nat) : ∀ n : Node, srcOk n = true → VC lo hi n n := by
+theorem EVC.src (lo hi : Nat) : ∀ n : Node, srcOk n = true → EVC lo hi n n := by
   apply Node.ind
   intro n ih hs
   have hsk := srcOk_kids hs
   have hkl : KL lo hi n.kids n.kids := KL_of_forall n.kids (fun k hk => ih k hk (hsk k hk))
-  have hgen : genK n = true → VC lo hi n n := by
+  have hgen : genK n = true → EVC lo hi n n := by
     intro hg
     have := genAll_VC n hs hg lo hi n.kids hkl
     rwa [Node.withKids_kids] at this
@@ -134,7 +134,7 @@ theorem VC.src (lo hi : Nat) : ∀ n : Node, srcOk n = true → VC lo hi n n := 
   | ident nm isp =>
     refine ⟨?_, Or.inl rfl, by simp [Deep], rfl, fun _ => rfl⟩
     intro m hb σ
-    rw [BRg_noBlk (noBlk_ident _ _) hb]
+    rw [BRg_noBlk (noBlk_identE _ _) hb]
     exact ⟨_, [], by rw [erase_src _ hs]; rfl, ⟨rfl, Or.inl rfl, noSp_src _ hs⟩, Win.nil _ _⟩
   | arrow ps b at' sp =>
     exact arrow_src_VC ps b at' sp hs lo hi (KL_of_forall ps (fun k hk => ih k (by simp [kids, hk]) (hsk k (by simp [kids, hk]))))
@@ -154,7 +154,7 @@ theorem VC.src (lo hi : Nat) : ∀ n : Node, srcOk n = true → VC lo hi n n := 
     exact tpl_VC (KL_of_forall es (fun k hk => ih k (by simp [kids, hk]) (hsk k (by simp [kids, hk])))) hq
   | _ => exact hgen rfl
 
-theorem VC.srcL (lo hi : Nat) (ks : List Node) (h : ∀ k ∈ ks, srcOk k = true) : KL lo hi ks ks :=
-  KL_of_forall ks (fun k hk => VC.src lo hi k (h k hk))
+theorem EVC.srcL (lo hi : Nat) (ks : List Node) (h : ∀ k ∈ ks, srcOk k = true) : KL lo hi ks ks :=
+  KL_of_forall ks (fun k hk => EVC.src lo hi k (h k hk))
 
 end IastModel
